@@ -32,10 +32,10 @@ func newNode() *node { return &node{children: map[string]*node{}} }
 
 // Sigma is the name alphabet of C01 (one representative per character class) plus names that collide
 // with generated names.
-var Sigma = []string{"a", "b", "pet", "Pet", "pet owner", "ü", "a/b", "t~x", "q?", "h#", "b[0]", "{c}", "a/b c~d", "ü #?", "petOwner", "PetOwner", "getPOKBody", "thingOAIGen", "ThingOAIGen"}
+var Sigma = []string{"a", "b", "pet", "Pet", "pet owner", "ü", "a/b", "t~x", "q?", "h#", "b[0]", "{c}", "a/b c~d", "ü #?", "al~1", "petOwner", "PetOwner", "getPOKBody", "thingOAIGen", "ThingOAIGen"}
 
 // SigmaCore is Sigma without the generated-name look-alikes.
-var SigmaCore = Sigma[:14]
+var SigmaCore = Sigma[:15]
 
 func isIndex(s string) bool {
 	if s == "" {
